@@ -444,6 +444,12 @@ structure TD where
   /-- peerLoop and syncLoop: how many are running / blocked sending their result -/
   bgRun : Nat := 2
   bgSend : Nat := 0
+  /-- `syncLoop` is one of the running context loops -/
+  syncRun : Bool := true
+  /-- block-ingestion goroutines of a sync round in progress (`parallelSync`'s goroutine that hands
+  batches to the chain manager): not members of the thread group, joined by `syncLoop`
+  (`wg.Wait` on every exit of `parallelSync`) before it can return -/
+  ingest : Nat := 0
   /-- connection goroutines (members of the group) that have not yet called `addPeer` -/
   conns : Nat := 0
   /-- peers in the map whose `runPeer` has not yet executed `tg.Add`; transport open / closed -/
@@ -472,7 +478,15 @@ inductive TDStep
   | remoteClose (serving : Bool)
   /-- repaired code only: the peer's watcher sees `tg.Done()` and closes the peer -/
   | watch
-  | acceptExit | bgExit
+  | acceptExit
+  /-- a context loop sees its context cancelled and returns: `syncLoop` (`true`) only when no sync
+  round is in progress — every exit of `parallelSync` waits for the round's goroutines —,
+  `peerLoop` (`false`) at any time -/
+  | bgExit (sync : Bool)
+  /-- `syncLoop` starts a sync round (`parallelSync` starts its ingestion goroutine) -/
+  | syncStart
+  /-- the ingestion goroutine has made its last call into the chain manager and ends -/
+  | ingestDone
   /-- ENVIRONMENT: `syncLoop` fails (fatal error of the chain manager) -/
   | bgFail
   /-- ENVIRONMENT: the listener is closed from outside (its owner closes the `net.Listener`, or it
@@ -516,11 +530,20 @@ def TD.step (fixed : Bool) (s : TD) : TDStep → Option TD
     if fixed ∧ s.tgClosed ∧ 0 < s.sO then some { s with sO := s.sO - 1, sC := s.sC + 1 } else none
   | .acceptExit =>
     if s.accept = .running ∧ s.lClosed then some { s with accept := .sending } else none
-  | .bgExit =>
-    if 0 < s.bgRun ∧ s.tgClosed then some { s with bgRun := s.bgRun - 1, bgSend := s.bgSend + 1 }
+  | .bgExit true =>
+    if s.syncRun ∧ s.ingest = 0 ∧ s.tgClosed ∧ 0 < s.bgRun then
+      some { s with syncRun := false, bgRun := s.bgRun - 1, bgSend := s.bgSend + 1 }
+    else none
+  | .bgExit false =>
+    if (if s.syncRun then 1 else 0) < s.bgRun ∧ s.tgClosed then
+      some { s with bgRun := s.bgRun - 1, bgSend := s.bgSend + 1 }
     else none
   | .bgFail =>
-    if 0 < s.bgRun then some { s with bgRun := s.bgRun - 1, bgSend := s.bgSend + 1 } else none
+    if s.syncRun ∧ s.ingest = 0 ∧ 0 < s.bgRun then
+      some { s with syncRun := false, bgRun := s.bgRun - 1, bgSend := s.bgSend + 1 }
+    else none
+  | .syncStart => if s.syncRun ∧ s.ingest = 0 then some { s with ingest := 1 } else none
+  | .ingestDone => if 0 < s.ingest then some { s with ingest := s.ingest - 1 } else none
   | .envCloseL => some { s with lClosed := true }
   | .runRecv =>
     -- `<-errChan` rendezvous with one loop that is sending; that loop then calls `done()`
@@ -556,7 +579,7 @@ def tdSys (fixed : Bool) : Sys TD TDStep := ⟨TD.step fixed⟩
 progress of `Close` must come from one of these -/
 def TD.progressSteps : List TDStep :=
   [.connFail, .connAdd, .peerAdd true, .peerAdd false, .peerErr, .peerRemove, .watch,
-   .acceptExit, .bgExit, .runRecv, .runCloseL, .runSweep, .runPeersDone, .runReturn, .closeRet]
+   .acceptExit, .bgExit true, .bgExit false, .ingestDone, .runRecv, .runCloseL, .runSweep, .runPeersDone, .runReturn, .closeRet]
 
 def TD.canProgress (fixed : Bool) (s : TD) : Bool :=
   TD.progressSteps.any fun a => (TD.step fixed s a).isSome
